@@ -259,7 +259,7 @@ fn patterns(k: usize, which: usize) -> Vec<Op> {
 }
 
 fn truncate(ctx: &mut Ctx) {
-    let files = ctx.tier.pick(220u64, 5_000);
+    let files = ctx.tier.pick(220u64, 2_500);
     for fi in 0..files {
         if !ctx.mine(fi) {
             continue;
